@@ -344,4 +344,8 @@ extern void PrintCodepages(void);
 
 extern void asmpars_init(void);
 
+#ifdef ASL_VERIF
+extern LargeWord asl_verif_symbol_hash(void);
+#endif
+
 #endif /* ASMPARS_H */
